@@ -81,15 +81,3 @@ Proof.
   split; [|vm_compute; reflexivity].
   apply Forall_forall. intros x Hx. apply N.ltb_lt. revert x Hx. apply forallb_forall. vm_compute. reflexivity.
 Qed.
-
-(* ---- the tie to the code: gf.h as TRANSLATED from /repo's current source on this run (Gen/CFuns.v,
-   tools/c2coq.py; Z values, unsigned results reduced mod 2^64).  The doubling table, the doubling
-   rule on all 2048 elements (exhaustive computation) and the Horner loop on every 16 coefficients are
-   the mirrors the theorems above are about *)
-Theorem C02_code_tie :
-  CFuns.polyseed_mul2_table = map Z.of_N Gen.PrivConsts.mul2_table /\
-  (forall x, x < 2048 -> CFuns.gf_elem_mul2 CFuns.polyseed_mul2_table (Z.of_N x) = Z.of_N (mul2 x)) /\
-  (forall c, length c = 16%nat -> wf c ->
-     CFuns.gf_poly_eval CFuns.polyseed_mul2_table (map Z.of_N c) = Z.of_N (poly_eval c)).
-Proof. exact (conj tie_table (conj tie_mul2 tie_eval)). Qed.
-Print Assumptions C02_code_tie.
